@@ -33,7 +33,8 @@ ASSUMPTIONS = [
 ]
 REPORT_COUNTERS = ["programs", "second_pass_calls_checked", "second_pass_after_register_checked", "warm_user_hook_calls",
                    "warm_internal_calls", "entry_paths_nested", "resolve_calls_checked", "watch_points", "introspection_between_calls",
-                   "parent_used_between_calls", "copies_derived_between_calls"]
+                   "parent_used_between_calls", "copies_derived_between_calls",
+                   "copies_first_used_between_calls"]
 
 TOOL = 3
 WATCH = {}
@@ -71,7 +72,8 @@ def plan(tier):
     return {"cases": n, "params": {}, "timeout_s": 1200 if tier == "quick" else 7200,
             "min": {"second_pass_calls_checked": 2_000, "second_pass_after_register_checked": 1_000,
                     "warm_user_hook_calls": 5_000, "warm_internal_calls": 20_000, "entry_paths_nested": 500,
-                    "parent_used_between_calls": 300, "copies_derived_between_calls": 500}}
+                    "parent_used_between_calls": 300, "copies_derived_between_calls": 500,
+                    "copies_first_used_between_calls": 200}}
 
 
 def _gen_t(rng, classes):
@@ -178,6 +180,14 @@ def check_case(spec, res):
                         res.count("copies_derived_between_calls")
                     except Exception:  # noqa: BLE001
                         pass
+                    if label == "second_pass_after_register_checked" and derived:
+                        # ... and so does *using* the copy for the first time (after the last change to the
+                        # function: a function that has used copies takes no more methods)
+                        from ..observe import outcome
+                        pa = prog.args(spec["calls"][i])
+                        d_ = derived[-1]
+                        outcome(lambda: d_(*pa[0], **pa[1]), prog.vf, prog.names)
+                        res.count("copies_first_used_between_calls")
                 base = getattr(prog, "base", None)
                 if base is not None:
                     # using the *parent* (for the first time, then again) changes nobody's set of methods
